@@ -386,6 +386,9 @@ func (e *Env) index(x, i SVal) SVal {
 		key := ""
 		if tb := e.p.tableOfRef(x.T); tb != nil {
 			key = tb.Key
+			if sortOf(u.Elem()) == SSlice {
+				return SVal{T: tb.subSlice(i.T), Typ: u.Elem()}
+			}
 			return SVal{T: tb.valTerm(i.T), Typ: u.Elem()}
 		}
 		_ = key
@@ -671,8 +674,7 @@ func (e *Env) call(x SCall) SVal {
 		if !ok {
 			efail("gfield(obj, name): name must be an identifier")
 		}
-		h := "GH:" + id.Name
-		e.p.registerHeap(h, ArraySort(SInt, SInt))
+		h := ghostFieldHeap(e.p, id.Name, false)
 		return SVal{T: Select(e.cur.H(e.p, h), o.T), Typ: tInt}
 	case "str_atoi":
 		argn(1)
@@ -680,6 +682,40 @@ func (e *Env) call(x SCall) SVal {
 	case "str_itoa":
 		argn(1)
 		return SVal{T: App("str_itoa", SStr, e.elab(x.Args[0]).T), Typ: tString}
+	case "cur":
+		// cur(p): the current value of a parameter that the function reassigns (a bare
+		// parameter name denotes its value at entry)
+		argn(1)
+		id, ok := x.Args[0].(SIdent)
+		if !ok || e.local == nil {
+			efail("cur(name) needs a parameter name and is only available where locals are in scope")
+		}
+		if v, ok := e.local(id.Name); ok {
+			return v
+		}
+		efail("cur(%s): no such local", id.Name)
+	case "gf", "gfa":
+		// ghost fields: gf(name, x) is an int-valued ghost field of object x, gfa(name, x, k) the k-th cell of
+		// an int-array-valued one. They exist only in contracts (model state of opaque library objects such
+		// as the content of a bytes.Buffer); they live in heap arrays of their own and obey modifies clauses.
+		if x.Fn == "gf" {
+			argn(2)
+		} else {
+			argn(3)
+		}
+		id, ok := x.Args[0].(SIdent)
+		if !ok {
+			efail("%s(name, object, ...): the first argument is the name of the ghost field", x.Fn)
+		}
+		obj := e.elab(x.Args[1])
+		if obj.T.Sort != SInt {
+			efail("%s: the object must be a reference", x.Fn)
+		}
+		h := ghostFieldHeap(e.p, id.Name, x.Fn == "gfa")
+		if x.Fn == "gf" {
+			return SVal{T: Select(e.cur.H(e.p, h), obj.T), Typ: tInt}
+		}
+		return SVal{T: Select(Select(e.cur.H(e.p, h), obj.T), e.elab(x.Args[2]).T), Typ: tInt}
 	case "visited":
 		argn(1)
 		v, ok := e.vars["$vis"]
@@ -920,4 +956,16 @@ func (p *Program) unfoldDefs(ts []*Term, depth int) []*Term {
 		frontier = next
 	}
 	return out
+}
+
+// ghostFieldHeap: the heap array of a contract-only ghost field (see gf/gfa)
+func ghostFieldHeap(p *Program, name string, isArray bool) string {
+	if isArray {
+		h := "GFA:" + name
+		p.registerHeap(h, ArraySort(SInt, ArraySort(SInt, SInt)))
+		return h
+	}
+	h := "GF:" + name
+	p.registerHeap(h, ArraySort(SInt, SInt))
+	return h
 }
